@@ -1,7 +1,10 @@
 #!/usr/bin/env python3
-"""tools/keep_seed.py <src dir> <seed id> <property> <needs> <detected-by> — copy a confirmed seeded change into seeded/<id>/"""
+"""tools/keep_seed.py <src dir> <seed id> <property> <needs> <check-result> [clean-exit patched-exit tests-passing]
+— copy a confirmed seeded change into seeded/<id>/ (wave 3 onwards; waves A/B were registered by register_seeds.py).
+The three numbers are what tools/validate_seed.sh printed for this seed."""
 import json, os, shutil, sys
 src, sid, prop, needs, detected = sys.argv[1:6]
+clean, patched, tests = (int(x) for x in (sys.argv[6:9] if len(sys.argv) >= 9 else (0, 1, 171)))
 root = os.path.join(os.path.dirname(os.path.abspath(__file__)), "..", "seeded", sid)
 os.makedirs(root, exist_ok=True)
 for fn in os.listdir(src):
@@ -9,11 +12,13 @@ for fn in os.listdir(src):
         shutil.copy(os.path.join(src, fn), os.path.join(root, fn))
 meta = {
     "property": prop,
-    "breaks": open(os.path.join(src, "notes.md")).read().split("\n\n")[0][:600] if os.path.exists(os.path.join(src, "notes.md")) else "",
     "needs_to_manifest": needs,
-    "confirmed": "tools/validate_seed.sh: demo exits 0 on the clean tree and non-zero with the patch; the 171 stable baseline tests still pass with the patch",
+    "confirmed": {"demo_on_clean_tree_exit": clean, "demo_with_patch_exit": patched,
+                  "stable_baseline_tests_passing_with_patch": tests,
+                  "how": "tools/validate_seed.sh in a scratch worktree of /repo (private HOME; tests/test_cwl_loop.py serially)"},
     "check_result": detected,
     "ran": [f"tools/validate_seed.sh {src}", f"tools/run_seed.sh {src} {prop}"],
+    "written_by": "independent sub-agent (wave 3) given only the property text and a scratch worktree of /repo",
 }
 json.dump(meta, open(os.path.join(root, "meta.json"), "w"), indent=1)
 print("kept", sid)
